@@ -325,6 +325,10 @@ def groups(tier, seed):
     if chunk:
         yield {'cases': list(chunk)}
         chunk.clear()
+    # an expression on the right of a comparison, written without blanks
+    yield {'cases': [{'kind': 'where-rhs', 'e': e, 'op': o} for e in ('2*3', '12/2', '14%8', 'size*1', '2*3+1', '(2*3)', '1+2*3', '2 * 3', '10-2*2', 'hardlinks*5',
+                                                                        '5 / 2', '7/2', 'size/2', '2030-2024', '20000-19995', '2024-size')
+                     for o in ('=', '!=', '>=', '<', 'gte', 'eq')]}
     # the shown value of an expression that also occurs in a WHERE arm which is skipped for some rows
     uf = [e for e in p if not any(w in e for w in ('contains', 'replace', '{', 'plus', 'mul')) and ('size' in e or 'hardlinks' in e or 'name' in e)]
     for i in range(0, len(uf), 6):
@@ -372,6 +376,24 @@ def eval_group(env, group, tier):
             r = {'case': c, 'layer': kind + (':k=%d' % c['k'] if 'k' in c else '')}
             if kind == 'company':
                 outs.append(company(env, root, c, r, len(ents)))
+                continue
+            if kind == 'where-rhs':
+                f = {'=': lambda a, b: a == b, 'eq': lambda a, b: a == b, '!=': lambda a, b: a != b, '>=': lambda a, b: a >= b, 'gte': lambda a, b: a >= b,
+                     '<': lambda a, b: a < b}[c['op']]
+                try:
+                    want = sorted(x['name'] for x in ents if f(float(x['size']), pool_value(c['e'].replace(' ', ''), x)))
+                except ZeroDivisionError:
+                    continue
+                q = 'name where size %s %s into list' % (c['op'], c['e'])
+                o = env.run([q], cwd=root)
+                r['nt'] = True
+                r['trans'] = len(ents)
+                if o.rc != 0 or o.err or sorted(o.rows()) != want:
+                    r.update(status='viol', cls='where-expression', sig=('where-rhs',),
+                             detail={'query': q, 'got': sorted(o.rows()), 'expected': want, 'err': o.brief()['err']})
+                else:
+                    r.update(status='ok', sig=('where-rhs', c['e'], c['op']))
+                outs.append(r)
                 continue
             if kind == 'under-filter':
                 outs.append(under_filter(env, root, c, r, ents))
